@@ -5,6 +5,9 @@ package main
 // scratch property C00, VERIF_DUMP_ERRTABLE=1, and frozen here). errorsReturnedRule keeps
 // them that way: a failure that is reported today is not logged and forgotten tomorrow.
 var propagatedErrors = map[string][]string{
+	"M.newID":                                       {"crypto/rand.Read"},
+	"M.newSession":                                  {"M.newID"},
+	"M.withSession":                                 {"M.newID"},
 	"(*M.Proxy).connect":                            {"field Proxy.dial", "net/http.ReadResponse"},
 	"(*M/body.Modifier).ModifyResponse":             {"(*mime/multipart.Writer).CreatePart", "(io.Writer).Write", "strconv.Atoi"},
 	"(*M/h2.Config).Proxy":                          {"M/h2.forwardPreface", "crypto/tls.Dial"},
